@@ -41,11 +41,34 @@ ASSUMPTIONS = [
     'conflict resolution results are judged by C10; here a merging class '
     'only has to keep every token of both sides',
 ]
-SHRINK = ['scripts']
+SHRINK = ['scripts', 'ops']
+
+
+def gen_hist(seed, tier):
+    """Sequential storage histories (the C04 driver): stores from current
+    and stale serials and declared dependencies (readCurrent) on objects
+    that were meanwhile rewritten, undone, un-created or deleted."""
+    from . import c04
+    case = c04.gen_case(seed, tier)
+    r = random.Random(ctx.subseed(seed, 'rc'))
+    noids = 1 + max([rec['o'] for op in case['ops']
+                     for rec in op.get('recs', ())] or [1])
+    for op in case['ops']:
+        if op.get('op') == 'txn' and 'rc' not in op and r.random() < 0.45:
+            op['rc'] = [[r.randrange(noids), r.choice((None, None, 'stale'))]
+                        for _ in range(r.choice((1, 1, 2)))]
+        for rec in op.get('recs', ()):
+            if 'serial' not in rec and r.random() < 0.25:
+                rec['serial'] = r.choice(('stale', 'stale2'))
+    case['arm'] = 'hist'
+    case['sweep_p'] = 0.0
+    return case
 
 
 def gen(seed, tier):
     r = random.Random(seed)
+    if r.random() < 0.12:
+        return gen_hist(ctx.subseed(seed, 'hist'), tier)
     arm = r.choice(('conn', 'conn', 'conn', 'storage'))
     kind = r.choice(('file', 'file', 'mapping', 'demo:mapping',
                      'demo:file'))
@@ -235,6 +258,14 @@ def run_storage_arm(case):
 
 
 def run(case):
+    if case['arm'] == 'hist':
+        from . import c04
+        res = c04.run(case)
+        res['stats']['arm:hist'] = 1
+        oc = (res.get('sample') or {}).get('outcomes') or []
+        res['keys'] = ['h|%s|%s' % (case['kind'], ','.join(oc))] \
+            if any(o in ('conflict', 'readconflict') for o in oc) else []
+        return res
     if case['arm'] == 'storage':
         w, s = run_storage_arm(case)
         outcomes = w.outcomes
